@@ -191,10 +191,21 @@ def part(ctx, proto, thorough):
                      "trunc_inserts": [len(ins) - 2, len(ins) - 1] if (thorough or len(jobs) % 5 == 0) else [],
                      "pinserts": early_data(proto, c)})
         wants.append(len(c["want"]))
-    res = flowjobs.run_jobs_par(ctx, drv, codec.P[proto]["variants"], jobs, shards=8, env={"VERIF_ELEMENTS_DIR": eldir}, tag="v_" + proto, timeout=5000)
-    for job, r, w in zip(jobs, res, wants):
-        if not r.get("skipped"):
-            judge(ctx, proto, job, r, w)
+    # in portions: the observations of one portion (every insertion and every cut of every message) are judged and dropped
+    # before the next one runs - memory and scratch space stay bounded in the thorough tier
+    import shutil
+    CH = 1600
+    for lo in range(0, len(jobs), CH):
+        part_jobs, part_wants = jobs[lo:lo + CH], wants[lo:lo + CH]
+        tag = "v_%s_%d" % (proto, lo // CH)
+        res = flowjobs.run_jobs_par(ctx, drv, codec.P[proto]["variants"], part_jobs, shards=8, env={"VERIF_ELEMENTS_DIR": eldir}, tag=tag, timeout=5000)
+        for job, r, w in zip(part_jobs, res, part_wants):
+            if not r.get("skipped"):
+                judge(ctx, proto, job, r, w)
+        del res
+        for k in range(9):
+            shutil.rmtree(os.path.join(ctx.tmp, "%s_s%d" % (tag, k)), ignore_errors=True)
+        shutil.rmtree(os.path.join(ctx.tmp, tag), ignore_errors=True)
     ctx.traces_validated += len(jobs)
     j = jobs[len(jobs) // 2]
     ctx.sample({"proto": proto, "message_sets": j["sets"], "history": j["hist"], "inserted_sets": ins[:3], "truncations": "every offset"})
